@@ -222,8 +222,20 @@ def check_pin(ctx, F, E):
             for p in paths_of(ctx, F, fid):
                 bounded = False
                 for ev in p:
-                    if ev[0] == "assume" and "previousTransitions" in ev[2] and "<" in ev[2] and "transitionTargets" in ev[2]:
-                        bounded = bounded or ev[3] is True
+                    if ev[0] == "assume" and "previousTransitions" in ev[2] and "transitionTargets" in ev[2]:
+                        # any spelling of index < count: i < n (taken), i >= n (not taken), n > i, n <= i ...
+                        m = re.match(r"^\((.*?)(<=|>=|<|>)(.*)\)$", ev[2])
+                        if m:
+                            a, op, c2 = m.group(1), m.group(2), m.group(3)
+                            idx_left = "transitionTargets" in a and "previousTransitions" in c2
+                            idx_right = "transitionTargets" in c2 and "previousTransitions" in a
+                            if idx_left or idx_right:
+                                if idx_right:
+                                    op = {"<": ">", ">": "<", "<=": ">=", ">=": "<="}[op]
+                                # now: index OP count
+                                holds = {"<": True, ">=": False}.get(op)
+                                if holds is not None and bool(ev[3]) == holds:
+                                    bounded = True
                     if ev[0] == "ret" and ev[2] and "previousTransitions" in ev[2]:
                         if not bounded:
                             bad = "returns &previousTransitions[index] without `index < previousTransitions.count()`"
